@@ -1453,9 +1453,25 @@ func (c *c17) droppedErrors() {
 func (c *c17) textLiterals() {
 	// the reader's meta-characters: Excellent3 TEXT ends at an unescaped quote and unquotes with strconv.Unquote
 	found := 0
+	installRegexpResolver(c.p)
+	// named functions and the function literals inside them
+	var all []*ssa.Function
+	var addLits func(f *ssa.Function)
+	addLits = func(f *ssa.Function) {
+		all = append(all, f)
+		for _, an := range f.AnonFuncs {
+			addLits(an)
+		}
+	}
 	for _, f := range c.funcs() {
+		addLits(f)
+	}
+	for _, f := range all {
 		if len(f.Blocks) == 0 || f.Signature.Results().Len() == 0 || !isStringType(f.Signature.Results().At(0).Type()) {
 			continue
+		}
+		if f.Parent() != nil && len(f.FreeVars) > 0 {
+			continue // a literal that captures variables is evaluated with its enclosing function
 		}
 		params := make([]aval, len(f.Params))
 		for i, p := range f.Params {
@@ -1477,6 +1493,25 @@ func (c *c17) textLiterals() {
 					continue
 				}
 				found++
+				// text that is a match of a pattern which cannot match a quote or a backslash needs no escaping
+				origin := h
+				for origin.from != nil {
+					origin = origin.from
+				}
+				if origin.kind == "param" && origin.idx >= 0 && origin.idx < len(f.Params) {
+					if pats := regexCallbackPatterns(c.p, f.Params[origin.idx]); len(pats) > 0 {
+						clean := true
+						for _, pat := range pats {
+							if regexCanMatchAny(pat, "\"\\") {
+								clean = false
+							}
+						}
+						if clean {
+							c.r.OK("R4", f.Name()+"/text-literal/needs-no-escaping", c.pos(f), "the text is a match of "+strings.Join(pats, " / ")+", which admits neither quote nor backslash")
+							continue
+						}
+					}
+				}
 				hasQuote, hasBackslash := false, false
 				for _, sb := range h.subs {
 					if strings.Contains(sb[0], `"`) && strings.HasSuffix(sb[1], `\"`) {
